@@ -104,15 +104,23 @@ def formatNPath (anchor : Bool) (p : Text) : Except Err (List Text) :=
 /-! ### how lookups compare name tokens (`expressions/binding.py`) -/
 
 /-- `_NIX_IDENTIFIER_RE` : `[A-Za-z_][A-Za-z0-9_'\-]*\Z` (the bare names Nix accepts: the NPath
-    identifier class plus `-` after the first character) -/
-def nameIdentRest (c : Char) : Bool := identRest c || c = '-'
+    identifier class plus `-` after the first character), as sorted code point ranges; the translator
+    re-extracts both classes (`Props/C12.lean: tie_name_start / tie_name_rest`). -/
+def nameStartRanges : List (Nat × Nat) := [(65, 90), (95, 95), (97, 122)]
+def nameRestRanges : List (Nat × Nat) := [(39, 39), (45, 45), (48, 57), (65, 90), (95, 95), (97, 122)]
+def nameIdentStart (c : Char) : Bool := inRanges nameStartRanges c.toNat
+def nameIdentRest (c : Char) : Bool := inRanges nameRestRanges c.toNat
 def nameIdent : Text → Bool
   | [] => false
-  | c :: cs => identStart c && cs.all nameIdentRest
+  | c :: cs => nameIdentStart c && cs.all nameIdentRest
 
+/-- `_STRING_ESCAPES` (re-extracted: `tie_name_escapes`) -/
+def nameEscapes : List (Char × Char) := [('n', '\n'), ('r', '\r'), ('t', '\t')]
 /-- `_STRING_ESCAPES.get(following, following)` -/
 def nameUnesc (c : Char) : Char :=
-  if c = 'n' then '\n' else if c = 'r' then '\r' else if c = 't' then '\t' else c
+  match nameEscapes.lookup c with
+  | some r => r
+  | none => c
 
 /-- the `while index < len(body)` loop of `_decode_attr_name`; `none` is the early `return None`
     (interpolation, unescaped quote, dangling backslash) -/
